@@ -6,12 +6,15 @@
 # Results: /verif/sensitivity_results.txt
 set -u
 ROOT="$(cd "$(dirname "$0")/.." && pwd)"
+ONLY="${1:-}"   # optional: C15 | C16 | C20 - run only the changes breaking that property (results go to stdout only)
 OUT="$ROOT/sensitivity_results.txt"
+[ -n "$ONLY" ] && OUT="/dev/null"
 cd /repo || exit 2
 if [ -n "$(git status --porcelain --untracked-files=no)" ]; then echo "/repo has local changes; refusing"; exit 2; fi
 : > "$OUT"
 run_breaking() { # name patch property
     name="$1"; patch="$2"; prop="$3"
+    if [ -n "$ONLY" ] && [ "$ONLY" != "$prop" ]; then return; fi
     git apply "$patch" || { echo "$name: patch does not apply" | tee -a "$OUT"; return; }
     log=$(cd "$ROOT" && ./run.sh "$prop" quick 2>&1); code=$?
     line=$(printf '%s\n' "$log" | grep '^VIOLATION' | head -1)
@@ -27,6 +30,7 @@ run_breaking() { # name patch property
 }
 run_neutral() { # name patch
     name="$1"; patch="$2"
+    if [ -n "$ONLY" ]; then return; fi
     git apply "$patch" || { echo "$name: patch does not apply" | tee -a "$OUT"; return; }
     res=""
     for prop in C15 C16 C20; do
@@ -50,4 +54,4 @@ for p in "$ROOT"/mutants/neutral_*.patch; do
     [ -f "$p" ] || continue
     run_neutral "$(basename "$p" .patch)" "$p"
 done
-(cd "$ROOT" && for prop in C15 C16 C20; do ./run.sh $prop quick >/dev/null 2>&1; echo "clean tree $prop exit=$?"; done) | tee -a "$OUT"
+(cd "$ROOT" && for prop in C15 C16 C20; do if [ -n "$ONLY" ] && [ "$ONLY" != "$prop" ]; then continue; fi; ./run.sh $prop quick >/dev/null 2>&1; echo "clean tree $prop exit=$?"; done) | tee -a "$OUT"
